@@ -69,6 +69,12 @@ TAGBLOCKS: list[tuple[str, str, str]] = [
     ("comment-list", "<!-- qza -->\n1. qaa qab qac\n2. qad\n<!-- /qza -->\n", "list"),
     ("tag-table", "{% qza %}\n| qaa | qab |\n|---|---|\n| qac | qad |\n{% /qza %}\n", "table"),
     ("mixed-tags-list", "<!-- qza -->\n- qaa qab\n{% /qzb %}\n", "list"),
+    ("cont-before-close-tag", "{% qza %}\n- qaa\n  qab qac\n{% /qza %}\n", "list"),
+    ("cont-before-close-jcomment", "{# qza #}\n- qaa\n  qab qac\n{# /qza #}\n", "list"),
+    ("cont-before-close-var", "{{ qza }}\n- qaa\n  qab qac\n{{ /qza }}\n", "list"),
+    ("cont-before-close-comment", "<!-- qza -->\n1. qaa\n   qab qac\n<!-- /qza -->\n", "list"),
+    ("plus-paren-markers", "{% qza %}\n+ qaa qab\n+ qac\n{% /qza %}\n\n{% qzb %}\n1) qad qae\n2) qaf\n{% /qzb %}\n", "list"),
+    ("tab-after-marker", "{% qza %}\n-\tqaa qab\n-\tqac\n{% /qza %}\n", "list"),
 ]
 
 
@@ -155,7 +161,7 @@ def run(env: Any, case: dict[str, Any]) -> Any:
             env.prove(ok, "tagblock:blank-line-separated", {"out": out})
             s = shape(out)
             kinds = [b[0] for b in s[1]]
-            env.prove(case["enclosed"] in kinds and kinds.count("para") == 2, "tagblock:still-a-" + case["enclosed"], {"kinds": kinds, "out": out})
+            env.prove(case["enclosed"] in kinds and kinds.count("para") == len(src_tag_lines), "tagblock:still-a-" + case["enclosed"], {"kinds": kinds, "out": out})
         env.prove(shape(out) == shape(separate_tag_blocks(doc)), "tagblock:shape", {"out": out})
         return out
     raise ValueError(case["kind"])
